@@ -7,6 +7,10 @@ import "strings"
 // a FIFO reader wait for each other and hands the writer's identity to the reader.
 
 func vxStreamWF(n int, streamPath string, twoStreams bool, mixed bool) (*Workflow, *Process, *Process) {
+	return vxStreamWFmeta(n, streamPath, twoStreams, mixed, "meta{p:k}.txt")
+}
+
+func vxStreamWFmeta(n int, streamPath string, twoStreams bool, mixed bool, metaPath string) (*Workflow, *Process, *Process) {
 	wf := newWorkflowWithoutLogging("w", 4*n)
 	pat := "vcmd w:{os:s}"
 	if twoStreams {
@@ -33,7 +37,7 @@ func vxStreamWF(n int, streamPath string, twoStreams bool, mixed bool) (*Workflo
 		cons2.In("in").From(prod.Out("s2"))
 	}
 	if mixed {
-		prod.SetOut("meta", "meta{p:k}.txt")
+		prod.SetOut("meta", metaPath)
 		cp := NewProc(wf, "cp", "vcmd r:{i:in} w:{o:out}")
 		cp.SetOut("out", "{i:in}.copy")
 		cp.In("in").From(prod.Out("meta"))
@@ -57,7 +61,7 @@ func vxNoFifoOrStreamFile(streamFiles []string) bool {
 
 func VxH17() {
 	n := vxGet("n")
-	shape := vxGet("shape") // 0 plain, 1 ../ path, 2 absolute path, 3 two streaming ports, 4 streaming + ordinary output
+	shape := vxGet("shape") // 0 plain, 1 ../ path, 2 absolute path, 3 two streaming ports, 4 streaming + ordinary output, 5 as 4 with the ordinary output in a sub-directory and symbolic map order
 	vxCmdFree(false, false)
 	stream := "s{p:k}.txt"
 	switch shape {
@@ -72,7 +76,12 @@ func VxH17() {
 			vxFSMkdirAll("/abs/d")
 		}
 	}
-	wf, _, _ := vxStreamWF(n, stream, shape == 3, shape == 4)
+	meta := "meta{p:k}.txt"
+	if shape == 5 {
+		meta = "md/sub/meta{p:k}.txt"
+		vxMapOrder("createDirs")
+	}
+	wf, _, _ := vxStreamWFmeta(n, stream, shape == 3, shape >= 4, meta)
 	vxPreemptBudget(vxGet("preempt"))
 	kind := vxRun(func() { wf.Run() })
 	vxAssert(kind == "returned", "C17.run-completes")
@@ -109,9 +118,9 @@ func VxH17() {
 		}
 	}
 	vxAssert(nCons == want, "C17.one-consumer-task-per-streamed-item")
-	if shape == 4 {
+	if shape >= 4 {
 		for i := 0; i < n; i++ {
-			vxAssert(vxFSKind("meta"+string(rune('1'+i))+".txt.copy") == vxFile, "C04.ordinary-output-of-streaming-task-delivered")
+			vxAssert(vxFSKind(strings.Replace(meta, "{p:k}", string(rune('1'+i)), 1)+".copy") == vxFile, "C04.ordinary-output-of-streaming-task-delivered")
 		}
 	}
 	// audit: the consumer's record names the producing task as upstream
